@@ -16,6 +16,7 @@ import (
 	"net/http"
 	"net/http/httptest"
 	"reflect"
+	"runtime"
 	"strings"
 	"sync"
 	"sync/atomic"
@@ -1224,6 +1225,87 @@ func TestReconfigureConcurrent(t *testing.T) {
 	propRace.Check(t, kit.N(40, 120))
 }
 
+// ---------------------------------------------------------------- registration racing nested parses
+
+// RegRaceCase: Parsers goroutines keep posting a nested valid configuration
+// while the embedding program registers a node type Registers times
+// (parse.Register is legal at any time: the registry is locked). Everything
+// must return.
+type RegRaceCase struct {
+	Tree      *tr.Node `json:"tree"`
+	Parsers   int      `json:"parsers"`
+	Posts     int      `json:"posts"` // per parser
+	Registers int      `json:"registers"`
+}
+
+func runRegRace(c RegRaceCase) kit.Verdict {
+	if registryStuck.Load() {
+		return nil
+	}
+	m := martianhttp.NewModifier()
+	body := string(c.Tree.JSON())
+	var refused atomic.Int64
+	ok := bounded("register-concurrent", func() {
+		var wg sync.WaitGroup
+		var parsing atomic.Int64
+		for p := 0; p < c.Parsers; p++ {
+			wg.Add(1)
+			parsing.Add(1)
+			go func() {
+				defer wg.Done()
+				defer parsing.Add(-1)
+				for i := 0; i < c.Posts; i++ {
+					rw := httptest.NewRecorder()
+					m.ServeHTTP(rw, httptest.NewRequest("POST", "/configure", strings.NewReader(body)))
+					if rw.Code != 200 {
+						refused.Add(1)
+					}
+				}
+			}()
+		}
+		wg.Add(1)
+		go func() {
+			defer wg.Done()
+			for i := 0; i < c.Registers && parsing.Load() > 0; i++ {
+				parse.Register(tr.Inert, inertFromJSON)
+				runtime.Gosched()
+			}
+		}()
+		wg.Wait()
+	})
+	if !ok {
+		registryStuck.Store(true)
+		return kit.Failf("C12/reconfigure/register-concurrent-with-nested-parse/calls-do-not-return", "%d goroutines posting a nested valid configuration (depth %d) while parse.Register is called: not all calls returned within %v: %s", c.Parsers, c.Tree.Depth(), 3*kit.T(), short([]byte(body)))
+	}
+	if n := refused.Load(); n > 0 {
+		return kit.Failf("C12/reconfigure/valid-post/refused", "%d POSTs of a valid configuration were refused while parse.Register was being called: %s", n, short([]byte(body)))
+	}
+	return nil
+}
+
+var propRegRace = &kit.Prop[RegRaceCase]{
+	ID: "C12", Name: "register-concurrent",
+	Rule: "1..6 goroutines POST a nested valid configuration (depth >= 2) 100..300 times each while another goroutine calls parse.Register of a harness-defined node type; every call must return within T (re-validated at 3T) and every POST must be accepted; non-trivial = depth >= 3",
+	Gen: func(t *rapid.T) RegRaceCase {
+		g := &gen{t: t, maxDepth: 2 + uni(t, "maxdepth", 3), maxWidth: 3}
+		tree := g.node(1)
+		if tree.Depth() < 2 {
+			tree = &tr.Node{ID: 500000, T: tr.Fifo, Kids: []*tr.Node{tree}}
+		}
+		return RegRaceCase{Tree: tree, Parsers: 1 + uni(t, "parsers", 6), Posts: 100 + uni(t, "posts", 201), Registers: 2000}
+	},
+	Run:        runRegRace,
+	NonTrivial: func(c RegRaceCase) bool { return c.Tree.Depth() >= 3 },
+}
+
+// TestZRegisterConcurrent runs last: a hang leaves the process-wide registry stuck.
+func TestZRegisterConcurrent(t *testing.T) {
+	if registryStuck.Load() {
+		t.Skip("a configuration call of an earlier check never returned; the process-wide parse registry is stuck")
+	}
+	propRegRace.Check(t, kit.N(30, 100))
+}
+
 func TestReplay(t *testing.T) {
-	kit.Replay(t, propTree, propEnum, propHistory, propHTTPHistory, propRace)
+	kit.Replay(t, propTree, propEnum, propHistory, propHTTPHistory, propRace, propRegRace)
 }
